@@ -305,7 +305,7 @@ def fimo(motifs, sequences, alphabet=['A', 'C', 'G', 'T'], bin_size=0.1,
 	_smallest, _score_to_pvals = _all_pwm_to_mapping(motif_pwms, motif_lengths, 
 		bin_size)
 	_score_to_pvals_lengths = [0]
-	_score_thresholds = numpy.empty(n_motifs, dtype=numpy.float32)
+	_score_thresholds = numpy.empty(n_motifs, dtype=numpy.float64)
 
 	for i in range(n_motifs):	
 		_score_to_pvals_lengths.append(len(_score_to_pvals[i]))
